@@ -507,8 +507,8 @@ func REnumPos(c *core.Ctx) {
 	}
 	// path facts about "is negated" booleans
 	type facts struct {
-		isFalse map[types.Object]bool            // class object known not negated
-		eq      map[[2]types.Object]bool         // the two classes have the same negation
+		isFalse map[types.Object]bool    // class object known not negated
+		eq      map[[2]types.Object]bool // the two classes have the same negation
 	}
 	clone := func(f facts) facts {
 		g := facts{isFalse: map[types.Object]bool{}, eq: map[[2]types.Object]bool{}}
